@@ -40,6 +40,16 @@ class MachineryError(Exception):
 _scratch: str | None = None
 
 
+# Statement coverage of pytato under the checks (a development aid, off unless
+# COVERAGE_PROCESS_START names a coverage.py configuration): which lines of the
+# code under test no check executes at all.
+if os.environ.get("COVERAGE_PROCESS_START"):
+    try:
+        import coverage as _coverage
+        _coverage.process_startup()
+    except Exception:      # noqa: BLE001
+        pass
+
 def scratch() -> str:
     """A private scratch directory, removed at exit.  Never under /verif or
     /repo; TMPDIR and XDG_CACHE_HOME are pointed into it so that loopy's
